@@ -29,7 +29,7 @@ def main(tier: str, seed: int) -> int:
     mods = sorted(p.stem for p in spec.glob("*.tla"))
 
     def parse(m):
-        p = subprocess.run(["java", "-cp", f"{tlc.JAR}:{tlc.DEPS}", "tla2sany.SANY", f"{m}.tla"], cwd=str(spec), capture_output=True, text=True)
+        p = subprocess.run(["java", f"-Djava.io.tmpdir={tlc._java_tmp()}", "-cp", f"{tlc.JAR}:{tlc.DEPS}", "tla2sany.SANY", f"{m}.tla"], cwd=str(spec), capture_output=True, text=True)
         out = p.stdout + p.stderr
         return m, ("Semantic errors" in out or "Parse Error" in out or "Fatal" in out or "Unknown operator" in out)
 
